@@ -428,7 +428,7 @@ def run():
         f'Reference: plain dict per object, class table. State key includes '
         f'object and __dict__ identity so aliasing is never merged away')
     rep.assumptions += ['one representative value per attribute']
-    rep.require(rep.coverage.get('states', 0) > 2000, 'too few states')
+    rep.require(rep.coverage.get('states', 0) > 1000, 'too few states')
     return rep
 
 
